@@ -40,9 +40,11 @@ def site_name(i):
     return chr(65 + i) if i < 26 else f'S{i}'
 
 
-def gen_topo(rng, n, extra, maxlen_km=180, fused_p=0.1, amp_p=0.15, cut=False):
+def gen_topo(rng, n, extra, maxlen_km=180, fused_p=0.1, amp_p=0.15, cut=False, patch_p=0.0, raman=False):
     """compact description of a ROADM mesh: n sites (trx + roadm each), a random spanning tree + `extra` more lines,
-    every line has 1-3 spans per direction with independent lengths (multiples of 60 m)"""
+    every line has 1-3 spans per direction with independent lengths (multiples of 60 m), Fused / declared amplifiers
+    between and after the spans; patch_p = share of fibre-less hops (two ROADMs patched through a Fused or a bare
+    amplifier); raman = some spans are RamanFiber, most of them followed by a declared amplifier"""
     names = [site_name(i) for i in range(n)]
     order = names[:]
     rng.shuffle(order)
@@ -62,12 +64,31 @@ def gen_topo(rng, n, extra, maxlen_km=180, fused_p=0.1, amp_p=0.15, cut=False):
             r = rng.random()
             if r < 0.08:
                 ln = 60 * rng.randint(1, 50)                  # 60 m .. 3 km
-            elif r < 0.93:
-                ln = 60 * rng.randint(100, int(maxlen_km * 1000 / 60))
+            elif r < 0.93 or raman:
+                ln = 60 * rng.randint(100, int((110 if raman else maxlen_km) * 1000 / 60))
             else:
                 ln = 60 * rng.randint(2500, 7000)             # 150 .. 420 km: auto-design splits it
             out.append(ln)
         return out
+
+    def decor(sp):
+        """what follows each span (the last entry sits in front of the ROADM) and the kind of each span"""
+        m, kinds = [], []
+        for k in range(len(sp)):
+            last = k == len(sp) - 1
+            r = rng.random()
+            if last:
+                c = 'A' if r < 0.12 else 'F' if r < 0.15 else '-'
+            else:
+                c = 'F' if r < fused_p else 'A' if r < fused_p + amp_p else 'G' if r < fused_p + amp_p + 0.05 else '-'
+            kind = 'f'
+            if raman and rng.random() < 0.35:
+                kind = 'r'
+                if rng.random() < 0.8:
+                    c = 'A'                                   # already declared amplifier: design keeps the loaded edge
+            m.append(c)
+            kinds.append(kind)
+        return ''.join(m), ''.join(kinds)
     if cut and len(pairs) > 1:
         # drop one or two lines (possibly disconnecting the mesh: NO_PATH must then be reported)
         for _ in range(rng.randint(1, 2)):
@@ -75,48 +96,72 @@ def gen_topo(rng, n, extra, maxlen_km=180, fused_p=0.1, amp_p=0.15, cut=False):
                 pairs.discard(rng.choice(sorted(pairs)))
     lines = []
     for (a, b) in sorted(pairs):
+        if rng.random() < patch_p:
+            c = rng.choice('FA')
+            lines.append({'a': a, 'b': b, 'ab': [], 'ba': [], 'mab': c, 'mba': c if rng.random() < 0.7 else rng.choice('FA')})
+            continue
         ab, ba = spans(), spans()
         if rng.random() < 0.25:
             ba = list(reversed(ab))                           # symmetric line
-        mid = {}
-        for d, sp in (('ab', ab), ('ba', ba)):
-            m = []
-            for _ in range(len(sp) - 1):
-                r = rng.random()
-                m.append('F' if r < fused_p else 'A' if r < fused_p + amp_p else '-')
-            mid[d] = ''.join(m)
-        lines.append({'a': a, 'b': b, 'ab': ab, 'ba': ba, 'mab': mid['ab'], 'mba': mid['ba']})
+        (mab, tab), (mba, tba) = decor(ab), decor(ba)
+        ln = {'a': a, 'b': b, 'ab': ab, 'ba': ba, 'mab': mab, 'mba': mba}
+        if raman:
+            ln.update(tab=tab, tba=tba)
+        lines.append(ln)
     return {'n': n, 'lines': lines}
 
 
 def topo_json(topo):
+    """line description, per direction: lengths 'ab' (metres; [] = fibre-less hop), what follows each span 'mab'
+    ('-' nothing declared, 'F' Fused, 'A' declared Edfa, 'G' Fused then declared Edfa; one entry per span, the last one
+    sits before the ROADM and may be omitted; for a fibre-less hop the single patch element 'F' or 'A'), span kinds 'tab'
+    ('f' Fiber, 'r' RamanFiber; optional)"""
     els, cx = [], []
     for i in range(topo['n']):
         x = site_name(i)
         els += [{'uid': f'trx {x}', 'type': 'Transceiver'}, {'uid': f'roadm {x}', 'type': 'Roadm'}]
         cx += [(f'trx {x}', f'roadm {x}'), (f'roadm {x}', f'trx {x}')]
+
+    def fused(u):
+        return {'uid': u, 'type': 'Fused', 'params': {'loss': 0.5}}
+
+    def edfa(u):
+        return {'uid': u, 'type': 'Edfa', 'type_variety': 'std_medium_gain',
+                'operational': {'gain_target': None, 'tilt_target': 0}}
     for ln in topo['lines']:
-        for (s, t, sp, mid) in ((ln['a'], ln['b'], ln['ab'], ln['mab']), (ln['b'], ln['a'], ln['ba'], ln['mba'])):
+        for (s, t, sp, mid, kinds) in ((ln['a'], ln['b'], ln['ab'], ln['mab'], ln.get('tab', '')),
+                                       (ln['b'], ln['a'], ln['ba'], ln['mba'], ln.get('tba', ''))):
             prev = f'roadm {s}'
+            if not sp:
+                u = f'patch {s}{t}' if mid[:1] != 'A' else f'amp {s}{t}'
+                els.append(edfa(u) if mid[:1] == 'A' else fused(u))
+                cx.append((prev, u))
+                prev = u
             for k, length in enumerate(sp):
                 fu = f'fiber {s}{t}_{k}'
-                els.append({'uid': fu, 'type': 'Fiber', 'type_variety': 'SSMF',
-                            'params': {'length': length / 1000, 'length_units': 'km', 'loss_coef': 0.2,
-                                       'con_in': None, 'con_out': None}})
+                el = {'uid': fu, 'type': 'Fiber', 'type_variety': 'SSMF',
+                      'params': {'length': length / 1000, 'length_units': 'km', 'loss_coef': 0.2,
+                                 'con_in': None, 'con_out': None}}
+                if kinds[k:k + 1] == 'r':
+                    el['type'] = 'RamanFiber'
+                    el['params'].update({'con_in': 0.5, 'con_out': 0.5})
+                    el['operational'] = {'temperature': 283,
+                                         'raman_pumps': [{'power': 0.2, 'frequency': 205e12,
+                                                          'propagation_direction': 'counterprop'}]}
+                els.append(el)
                 cx.append((prev, fu))
                 prev = fu
-                if k < len(mid):
-                    if mid[k] == 'F':
-                        u = f'fused {s}{t}_{k}'
-                        els.append({'uid': u, 'type': 'Fused', 'params': {'loss': 0.5}})
-                        cx.append((prev, u))
-                        prev = u
-                    elif mid[k] == 'A':
-                        u = f'amp {s}{t}_{k}'
-                        els.append({'uid': u, 'type': 'Edfa', 'type_variety': 'std_medium_gain',
-                                    'operational': {'gain_target': None, 'tilt_target': 0}})
-                        cx.append((prev, u))
-                        prev = u
+                m = mid[k:k + 1]
+                if m in ('F', 'G'):
+                    u = f'fused {s}{t}_{k}'
+                    els.append(fused(u))
+                    cx.append((prev, u))
+                    prev = u
+                if m in ('A', 'G'):
+                    u = f'amp {s}{t}_{k}'
+                    els.append(edfa(u))
+                    cx.append((prev, u))
+                    prev = u
             cx.append((prev, f'roadm {t}'))
     return {'elements': els, 'connections': [{'from_node': a, 'to_node': b} for a, b in cx]}
 
@@ -692,8 +737,22 @@ def run_big(ctx, rng, nnets, fixed=None):
 def gen_case(rng, nreq=8):
     n = rng.choice([2, 3, 3, 4, 4, 5, 5, 6, 6, 7, 8])
     extra = rng.randint(0, n if n < 7 else 4)
-    topo = gen_topo(rng, n, extra, cut=rng.random() < 0.12)
-    return topo
+    r = rng.random()
+    if r < 0.12 and n >= 3:
+        # Raman-pumped spans in a mesh with alternative routes (the span length counts whatever the Fiber subclass)
+        return gen_topo(rng, n, max(1, extra), raman=True, patch_p=0.1)
+    return gen_topo(rng, n, extra, cut=rng.random() < 0.12, patch_p=rng.choice([0, 0, 0.15, 0.35]))
+
+
+# Requests WITH an include list on meshes containing RamanFiber spans are not generated for the time being: on the
+# unchanged tree they can crash (networkx formats NetworkXNoPath with str(node), RamanFiber.__str__ reads
+# actual_raman_gain which only exists after a propagation -> AttributeError out of compute_constrained_path; reported
+# to the coordinator with the input notes/c11_raman_str_finding.json).  Set to True once that is repaired.
+RAMAN_CONSTRAINED = False
+
+
+def has_raman(topo):
+    return any('r' in ln.get('tab', '') + ln.get('tba', '') for ln in topo['lines'])
 
 
 def run(ctx):
@@ -733,6 +792,9 @@ def run(ctx):
                 ctx.violation('edge_weight_not_fibre_length', f'edge {u} -> {v} weighs {got}, fibre length rule gives {want}',
                               {'topo': c['topo'], 'requests': []})
             reqs = c['requests'] if c['requests'] is not None else [gen_request(rng, N, k) for k in range(8)]
+            if c['requests'] is None and has_raman(c['topo']) and not RAMAN_CONSTRAINED:
+                for rq in reqs:
+                    rq.update(nodes=[], loose=[], style='raman_none')
             pairs = []
             for rq in reqs:
                 obs = drive_request(N, rq)
